@@ -119,8 +119,10 @@ func (a *adapter) Cancel(key, cmd string, err error) {
 func (a *adapter) del(key string) {
 	entries := a.flights[key]
 	for cmd, e := range entries {
+		// the stored value goes even when a fetch of the same command is pending: Flight registers a new fetch without
+		// looking at the store again, so a value stored meanwhile can sit next to a pending entry
+		a.store.Del(key + cmd)
 		if e == nil {
-			a.store.Del(key + cmd)
 			delete(entries, cmd)
 		}
 	}
